@@ -87,6 +87,13 @@ pub trait Entry: Sized + 'static {
     fn reserve_form_count() -> usize {
         0
     }
+    /// Pushes the owned value itself (the `Push<Owned>` form), if the region accepts it.
+    fn push_owned(_r: &mut Self::R, _v: Self::V) -> Option<Idx<Self>> {
+        None
+    }
+    fn can_push_owned() -> bool {
+        false
+    }
     fn reserve_items(r: &mut Self::R, vs: &[Self::V]) -> bool {
         Self::reserve_items_form(r, vs, 0)
     }
@@ -199,6 +206,7 @@ macro_rules! entry {
         clone: $clone:tt, serde: $serde:tt, model: $model:tt,
         flags: { $($flag:ident : $fv:expr),* $(,)? },
         reserve: $reserve:tt,
+        $(owned: $owned:tt,)?
         canon: $cname:expr => |$cv:ident| $ce:expr,
         forms: [ $( $fname:expr => |$s:ident, $v:ident, $aux:ident| $e:expr ),* $(,)? ]
     ) => {
@@ -280,6 +288,7 @@ macro_rules! entry {
             }
 
             $crate::entry!(@reserve $reserve);
+            $( $crate::entry!(@owned $owned); )?
             $crate::entry!(@clone $clone);
             $crate::entry!(@serde $serde);
             $crate::entry!(@model $model);
@@ -324,6 +333,14 @@ macro_rules! entry {
             n
         }
         fn can_reserve_items() -> bool { true }
+    };
+
+    (@owned no) => {};
+    (@owned yes) => {
+        fn push_owned(r: &mut Self::R, v: Self::V) -> Option<$crate::entry::Idx<Self>> {
+            Some(flatcontainer::Push::push(r, v))
+        }
+        fn can_push_owned() -> bool { true }
     };
 
     (@clone no) => {};
